@@ -298,6 +298,16 @@ func CorpusWithHooks() []*Scenario {
 			a.Callbacks = ap.CBWrapped
 		}
 		out = append(out, &c)
+		// ... and with application callbacks that call back into the library (a Send in the same context)
+		c2 := *sc
+		c2.Name += "+reentrant-hooks"
+		c2.Tweak = func(a *ap.App) {
+			if inner != nil {
+				inner(a)
+			}
+			a.Callbacks = ap.CBWrappedReenter
+		}
+		out = append(out, &c2)
 	}
 	return out
 }
